@@ -5,31 +5,37 @@ from fractions import Fraction
 from .. import au, sym, order
 from ..core import AnalysisError
 from ..rules import c151718 as H
+from ..rules import hj_scope, hj_eval as E
+from ..rules.c151718 import Unrecognised
 
 TUT = "processing.parametrization.tutte"
 BASE = "processing.parametrization.base"
 CLS = "TutteEmbedding"
+BORD = "processing.border"
+LAPM = "operators.laplacian_op"
 
 EXPLANATION = (
-    "Static conformance of TutteEmbedding: the Euler-characteristic gate is a must-fact at every solve / store of the result "
-    "(R-MUST); the four sides of the square target are read as affine forms in the loop counter (atoms n//4, n//2, 3n//4, 1/n) "
-    "and the position of the first vertex of each side is compared with the position of the corner that precedes it, the sides "
-    "must cover the index ranges between consecutive corners; border order comes from extract_border_cycle unless the target is "
-    "custom, the circle is 2*pi*i/n for i in range(n); the harmonic system is L_II u = -L_IB u_B over one free/border partition; "
-    "the per-corner and per-vertex branches store the same values for the same index sets (sibling agreement).  Structural "
-    "necessary conditions only: fold-freeness, convexity and the solve itself are not decided.")
+    "Static conformance of TutteEmbedding, read on a normal form of each function (private helpers inlined, local names resolved to "
+    "what they denote).  The Euler-characteristic gate is a must-fact at every solve / store of the result; the placement of the "
+    "border on the square and on the circle is evaluated from the syntax tree of _initialize_boundary for every border length "
+    "n = 4..40 (abstract evaluation of the index arithmetic, no repository code is run): the n positions must lie on the target, be "
+    "pairwise distinct and go once around it in border order; border order comes from extract_border_cycle unless the target is "
+    "custom; the harmonic system is L_II u = -L_IB u_B over one free/border partition of the scalar Laplacian; the per-corner and "
+    "per-vertex branches store the same values for the same index sets; flat_mesh is evaluated on a two-triangle mesh.  A construct "
+    "that is not recognised ends `undecided`; only a recognised construct that contradicts a clause is reported.  Structural "
+    "necessary conditions only: fold-freeness and the solve itself are not decided.")
 
 RULES = {
     "C17-G1": "euler_characteristic(self.mesh) == 1 holds on every path reaching the boundary initialisation, the linear solves and the stores into self.uvs",
-    "C17-Q1": "square target: each side loop starts right after a corner and ends right before the next one; the position given to the "
-              "first vertex of a side differs from the position of the preceding corner (and tends to it as n grows); the position "
-              "depends on the loop counter",
+    "C17-Q1": "square target: for every border length n >= 4 the n positions computed by _initialize_boundary lie on the boundary of the unit "
+              "square, are pairwise distinct and go once around the square in the order of the border vertices",
     "C17-B1": "unless the target is custom the border vertices are ordered by extract_border_cycle(self.mesh); the boundary is initialised for "
-              "self._bnd_mode; the circle places vertex i of n = len(boundary_vertices) at angle 2*pi*i/n, i in range(n), U from the real and V from the imaginary part",
+              "self._bnd_mode; circle target: for every n the n positions lie on one circle, are pairwise distinct and go once around it in order",
     "C17-W1": "border order follows border edges: extract_border_cycle leaves the start through the head of the sorted neighbour list and scans "
               "forward with first match (or tail / backward); the sorting contract puts the corner-less border neighbour first",
     "C17-L1": "operators.laplacian uses cotangent weights exactly when its `cotan` argument is true and the uniform weights otherwise, whatever "
-              "attributes happen to be cached on the mesh (a cached 'cotan' attribute may only be reused when cotan weights are requested)",
+              "attributes happen to be cached on the mesh (a cached 'cotan' attribute may only be reused when cotan weights are requested); "
+              "the weight of a corner is its cotangent halved, unmodified",
     "C17-H1": "interior coordinates solve L[free,free] x = -L[free,border] x_border, with free = interior vertices, the border index list that "
               "orders x_border, and the scalar Laplacian (no connection)",
     "C17-S1": "the per-corner and the per-vertex branch store (U[i], V[i]) over enumerate(free) and (Ubnd[i], Vbnd[i]) over enumerate(border), "
@@ -38,101 +44,287 @@ RULES = {
 
 
 def run(ctx):
-    facts = run_facts(ctx)
-    g1_gate(ctx)
-    q1_square(ctx)
-    b1_border(ctx, facts)
-    h1_system(ctx, facts)
-    s1_siblings(ctx, facts)
-    w1_border_walk(ctx)
-    l1_weights(ctx)
+    G = H.guarded
+    G(ctx, "C17-Q1", TUT, f"{CLS}._initialize_boundary", q1_b1_placement)
+    facts = G(ctx, "C17-H1", TUT, f"{CLS}.run", run_facts)
+    if facts is not None:
+        G(ctx, "C17-G1", TUT, f"{CLS}.run", g1_gate, facts)
+        G(ctx, "C17-B1", TUT, f"{CLS}.run", b1_border, facts)
+        G(ctx, "C17-H1", TUT, f"{CLS}.run", h1_system, facts)
+        G(ctx, "C17-S1", TUT, f"{CLS}.run", s1_siblings, facts)
+    G(ctx, "C17-S1", BASE, "BaseParametrization.flat_mesh", s1_flat_mesh)
+    G(ctx, "C17-W1", BORD, "extract_border_cycle", w1_border_walk)
+    G(ctx, "C17-L1", LAPM, "laplacian", l1_weights)
+
+
+# ------------------------------------------------------------------ C17-Q1 / C17-B1: placement of the border on the target
+def _placement(ctx, mode, n):
+    """positions [(u, v)] of the n border vertices for the given mode, by abstract evaluation of _initialize_boundary"""
+    fn = ctx.repo.func(TUT, f"{CLS}._initialize_boundary")
+
+    def hook(path):
+        if path == "self.mesh":
+            return E.Obj("self.mesh", hook)
+        if path in ("self.mesh.boundary_vertices",):
+            return list(range(n))
+        if path == "self._bnd_mode":
+            return E.Sym(f"{CLS}.BoundaryMode.{mode}")
+        if path.startswith("self.") and path.count(".") == 1:
+            d = hj_scope.attr_default(ctx.repo, TUT, CLS, path[5:])
+            v = hj_scope.fold(d) if d is not None else None
+            if isinstance(d, ast.Constant):
+                return d.value
+            if v is not None:
+                return v
+        return E.MISSING
+    it = E.Interp(ctx.repo, TUT, obj_hook=hook, obj_class={"self": (TUT, CLS)})
+    selfo = E.Obj("self", hook)
+    ps = au.params(fn, skip_self=True)
+    args = [selfo] + ([E.Sym(f"{CLS}.BoundaryMode.{mode}")] if ps else [])
+    r = it.call_function(fn, args)
+    ctx._hj_last_stores = it.n_stores
+    if not (isinstance(r, (tuple, list)) and len(r) == 2):
+        raise E.Unsupported("result is not a pair (U, V)")
+    U, V = r
+    U = list(U.d) if isinstance(U, E.Arr) else list(U) if isinstance(U, (list, tuple)) else None
+    V = list(V.d) if isinstance(V, E.Arr) else list(V) if isinstance(V, (list, tuple)) else None
+    if U is None or V is None or len(U) != len(V):
+        raise E.Unsupported("result is not a pair of vectors")
+    if not all(isinstance(x, (int, float)) and not isinstance(x, bool) for x in U + V):
+        raise E.Unsupported("non real coordinates")
+    return list(zip(map(float, U), map(float, V)))
+
+
+def _winding(ts, period):
+    """ts: parameters along the closed target curve; once around in order <=> all steps (mod period) have one sign and sum to +-period"""
+    n = len(ts)
+    fw = [((ts[(i + 1) % n] - ts[i]) % period) for i in range(n)]
+    if all(d > 1e-9 for d in fw) and abs(sum(fw) - period) < 1e-6:
+        return True
+    bw = [((ts[i] - ts[(i + 1) % n]) % period) for i in range(n)]
+    return all(d > 1e-9 for d in bw) and abs(sum(bw) - period) < 1e-6
+
+
+def _square_param(u, v, eps=1e-9):
+    if not (-eps <= u <= 1 + eps and -eps <= v <= 1 + eps):
+        return None
+    if abs(v) <= eps:
+        return u
+    if abs(u - 1) <= eps:
+        return 1 + v
+    if abs(v - 1) <= eps:
+        return 2 + (1 - u)
+    if abs(u) <= eps:
+        return 3 + (1 - v)
+    return None
+
+
+def q1_b1_placement(ctx):
+    fn = ctx.repo.func(TUT, f"{CLS}._initialize_boundary")
+    site = ctx.site(TUT, fn)
+    for mode, rule, label in (("SQUARE", "C17-Q1", "square"), ("CIRCLE", "C17-B1", "circle")):
+        problem = None
+        undec = None
+        checked = 0
+        for n in range(4, 41):
+            try:
+                P = _placement(ctx, mode, n)
+            except E.Unsupported as ex:
+                undec = f"abstract evaluation of _initialize_boundary stops at: {ex}"
+                break
+            except E.Raised as ex:
+                problem = (n, f"the computation raises ({ex})")
+                break
+            except RecursionError:
+                undec = "abstract evaluation of _initialize_boundary recurses too deeply"
+                break
+            if len(P) != n:
+                problem = (n, f"{len(P)} positions for {n} border vertices")
+                break
+            if all(abs(a) < 1e-300 and abs(b) < 1e-300 for a, b in P) and ctx._hj_last_stores == 0:
+                undec = "no position is ever written by the evaluated code (the dispatch on the boundary mode was probably not followed)"
+                break
+            if any(math.isnan(a) or math.isnan(b) for a, b in P):
+                problem = (n, "a position is not a number")
+                break
+            if mode == "SQUARE":
+                ts = [_square_param(u, v) for u, v in P]
+                off = [(i, P[i]) for i, t in enumerate(ts) if t is None]
+                if off:
+                    problem = (n, f"border vertex {off[0][0]} is placed at ({off[0][1][0]:.4g}, {off[0][1][1]:.4g}), which is not on the boundary of the unit square")
+                    break
+                ts = [t % 4 for t in ts]
+                period = 4.0
+            else:
+                rs = [math.hypot(u, v) for u, v in P]
+                if min(rs) < 1e-9 or max(rs) - min(rs) > 1e-9:
+                    problem = (n, "the positions are not on one circle centred at the origin")
+                    break
+                ts = [math.atan2(v, u) % (2 * math.pi) for u, v in P]
+                period = 2 * math.pi
+            dup = [(i, j) for i in range(n) for j in range(i + 1, n) if abs(P[i][0] - P[j][0]) < 1e-9 and abs(P[i][1] - P[j][1]) < 1e-9]
+            if dup:
+                i, j = dup[0]
+                problem = (n, f"border vertices {i} and {j} are both placed at ({P[i][0]:.4g}, {P[i][1]:.4g}): the triangles between them are degenerate")
+                break
+            if not _winding(ts, period):
+                problem = (n, f"the positions do not go once around the {label} in the order of the border vertices")
+                break
+            checked += 1
+        if undec is not None:
+            ctx.undecided(rule, site, f"{label} target: the placement of the border vertices cannot be evaluated", undec)
+        elif problem is not None:
+            ctx.fail(rule, site, f"{label} target: the border vertices are not placed at distinct positions going once around the {label}",
+                     f"for a border of n = {problem[0]} vertices {problem[1]}")
+        else:
+            ctx.ok(rule, site, f"{label} target: n distinct positions in border order on the {label} for n = 4..40 ({checked} sizes evaluated)")
 
 
 # ------------------------------------------------------------------ facts about run()
+def _blocks(e):
+    """`L[R, :][:, C]` / `L[R][:, C]` / `L[np.ix_(R, C)]` (format conversions stripped) -> (L, R, C)"""
+    while isinstance(e, ast.Call) and isinstance(e.func, ast.Attribute) and e.func.attr in ("tocsc", "tocsr", "tolil", "tocoo", "copy") and not e.args:
+        e = e.func.value
+    if not isinstance(e, ast.Subscript):
+        return None
+    sl = e.slice
+    if isinstance(sl, ast.Call) and au.call_tail(sl) == "ix_" and len(sl.args) == 2:
+        return e.value, sl.args[0], sl.args[1]
+    full = lambda x: isinstance(x, ast.Slice) and x.lower is None and x.upper is None and x.step is None
+    if isinstance(sl, ast.Tuple) and len(sl.elts) == 2 and full(sl.elts[0]):
+        cols = sl.elts[1]
+        inner = e.value
+        while isinstance(inner, ast.Call) and isinstance(inner.func, ast.Attribute) and inner.func.attr in ("tocsc", "tocsr", "tolil", "tocoo") and not inner.args:
+            inner = inner.func.value
+        if isinstance(inner, ast.Subscript):
+            r = inner.slice
+            if isinstance(r, ast.Tuple):
+                if len(r.elts) == 2 and full(r.elts[1]):
+                    r = r.elts[0]
+                else:
+                    return None
+            return inner.value, r, cols
+    return None
+
+
+def _init_coord(e):
+    """0 / 1 when e is `<...>._initialize_boundary(...)[k]`"""
+    if isinstance(e, ast.Subscript) and isinstance(e.value, ast.Call) and au.call_tail(e.value) == "_initialize_boundary" and au.const(e.slice) in (0, 1):
+        return au.const(e.slice)
+    return None
+
+
+def _coords_of(x):
+    """list of boundary coordinates an x_border expression carries: [0], [1] or [0, 1] (stacked as columns)"""
+    k = _init_coord(x)
+    if k is not None:
+        return [k]
+    if isinstance(x, ast.Call) and au.call_tail(x) in ("column_stack", "stack", "vstack", "array", "transpose") and x.args:
+        a = x.args[0]
+        if isinstance(a, (ast.Tuple, ast.List)) and len(a.elts) == 2:
+            ks = [_init_coord(z) for z in a.elts]
+            if None not in ks and au.call_tail(x) == "column_stack":
+                return ks
+    return None
+
+
 def run_facts(ctx):
-    fn = ctx.repo.func(TUT, f"{CLS}.run")
-    b = sym.Bindings(fn)
-    facts = {"fn": fn, "b": b, "ubnd": None, "vbnd": None, "init_call": None}
-    for st in au.stmts(fn.body):
-        if isinstance(st, ast.Assign) and isinstance(st.value, ast.Call) and au.call_tail(st.value) == "_initialize_boundary" \
-                and len(st.targets) == 1 and isinstance(st.targets[0], ast.Tuple) and len(st.targets[0].elts) == 2 \
-                and all(isinstance(x, ast.Name) for x in st.targets[0].elts):
-            facts["ubnd"], facts["vbnd"] = (x.id for x in st.targets[0].elts)
-            facts["init_call"] = st.value
-    # solves: X = <...>spsolve(M, rhs)
-    solves = []
-    for st in au.stmts(fn.body):
-        if isinstance(st, ast.Assign) and len(st.targets) == 1 and isinstance(st.targets[0], ast.Name) \
-                and isinstance(st.value, ast.Call) and au.call_tail(st.value) in ("spsolve", "solve") and len(st.value.args) == 2:
-            solves.append((st.targets[0].id, st.value.args[0], st.value.args[1], st))
-    facts["solves"] = solves
+    fn0 = ctx.repo.func(TUT, f"{CLS}.run")
+    fn, S, nz = H.norm_fn(ctx, TUT, f"{CLS}.run", keep=("_initialize_boundary", "extract_border_cycle", "log", "warn"), public_methods=True)
+    facts = {"fn0": fn0, "fn": fn, "S": S, "site": ctx.site(TUT, fn0), "solves": [], "inlined": sorted(set(nz.inlined))}
+    facts["inits"] = [c for c in au.calls(fn) if au.call_tail(c) == "_initialize_boundary"]
+    for c in au.calls(fn):
+        Mc = rc = None
+        if au.call_tail(c) in ("spsolve", "solve") and len(c.args) == 2:
+            Mc, rc = S.canon(c.args[0], c), S.canon(c.args[1], c)
+        elif len(c.args) == 1 and not c.keywords:
+            # solve = factorized(M); x = solve(rhs)      /     splu(M).solve(rhs)
+            f = S.canon(c.func, c)
+            if isinstance(f, ast.Call) and au.call_tail(f) == "factorized" and len(f.args) == 1:
+                Mc, rc = f.args[0], S.canon(c.args[0], c)
+            elif isinstance(f, ast.Attribute) and f.attr == "solve" and isinstance(f.value, ast.Call) and au.call_tail(f.value) in ("splu", "spilu", "factorized") \
+                    and len(f.value.args) == 1:
+                Mc, rc = f.value.args[0], S.canon(c.args[0], c)
+        if Mc is not None:
+            mv = H.matvec(rc)
+            facts["solves"].append({"call": c, "M": Mc, "rhs": rc, "canon": S.canon(c, c), "LI": _blocks(Mc), "sign": mv[0] if mv else None,
+                                    "LB": _blocks(mv[1]) if mv else None, "x": mv[2] if mv else None,
+                                    "coords": _coords_of(mv[2]) if mv else None})
     return facts
 
 
 # ------------------------------------------------------------------ C17-G1
-def _gate_polarity(test, b, at):
-    """True: test true => chi == 1 ; False: test true => chi != 1 ; None: not the gate"""
+def _gate_polarity(test):
+    """True: test true => chi == 1 ; False: test true => chi != 1 ; None: not the gate (test is canonical)"""
     if isinstance(test, ast.UnaryOp) and isinstance(test.op, ast.Not):
-        p = _gate_polarity(test.operand, b, at)
+        p = _gate_polarity(test.operand)
         return None if p is None else (not p)
-    t = b.resolve(test, at=at) if b is not None else test
+    t = test
     if isinstance(t, ast.Compare) and len(t.ops) == 1 and isinstance(t.ops[0], (ast.Eq, ast.NotEq)):
         sides = [t.left, t.comparators[0]]
         for x, y in (sides, sides[::-1]):
-            if isinstance(x, ast.Call) and au.call_tail(x) == "euler_characteristic" and len(x.args) == 1 \
-                    and au.src(x.args[0]) == "self.mesh" and au.const(y) == 1:
+            if _is_chi(x) and au.const(y) == 1:
                 return isinstance(t.ops[0], ast.Eq)
     return None
 
 
-def _gate_flow(ctx, fn, depth=0, observe=None):
-    b = sym.Bindings(fn)
-    cls = ctx.repo.cls(TUT, CLS)
-
-    def helper_gen(call):
-        if depth >= 2 or not (isinstance(call.func, ast.Attribute) and au.is_self_attr(call.func)):
+def _is_chi(x):
+    """euler_characteristic(self.mesh)  or  len(vertices) - len(edges) + len(faces) of self.mesh"""
+    if isinstance(x, ast.Call) and au.call_tail(x) == "euler_characteristic" and len(x.args) == 1 and au.src(x.args[0]) == "self.mesh":
+        return True
+    if isinstance(x, ast.BinOp):
+        def atom_of(e):
+            if isinstance(e, ast.Call) and au.call_tail(e) == "len" and len(e.args) == 1 and au.src(e.args[0]) in (
+                    "self.mesh.vertices", "self.mesh.edges", "self.mesh.faces"):
+                return au.src(e.args[0]).split(".")[-1]
+            return None
+        try:
+            p = sym.to_poly(x, atom_of=atom_of, opaque=False)
+        except sym.NotPoly:
             return False
-        for st in cls.body:
-            if isinstance(st, ast.FunctionDef) and st.name == call.func.attr:
-                f = _gate_flow(ctx, st, depth + 1)
-                falls = [s for k, n, s in f.exits if k in ("fall", "return")]
-                return bool(falls) and all("disk" in s for s in falls)
-        return False
+        return p == sym.Poly({("vertices",): 1, ("edges",): -1, ("faces",): 1})
+    return False
 
-    def gen_kill(node):
-        g = set()
-        if isinstance(node, ast.Expr) and isinstance(node.value, ast.Call) and helper_gen(node.value):
-            g.add("disk")
-        return g, set()
+
+def _wrong_gate_constant(test):
+    """the constant when the test compares euler_characteristic(self.mesh) with a constant other than 1"""
+    for t in ast.walk(test):
+        if isinstance(t, ast.Compare) and len(t.ops) == 1:
+            sides = [t.left, t.comparators[0]]
+            for x, y in (sides, sides[::-1]):
+                if _is_chi(x) and isinstance(au.const(y), int) and not isinstance(au.const(y), bool) and au.const(y) != 1:
+                    return au.const(y)
+    return None
+
+
+def g1_gate(ctx, facts):
+    fn0, fn, S, site = facts["fn0"], facts["fn"], facts["S"], facts["site"]
+    sinks = []
+    gates = []
 
     def refine(state, test, branch):
-        # conjunctions: `if a and gate` true branch ; `if a or not-gate` false branch
         parts = [test]
         if isinstance(test, ast.BoolOp):
             if (isinstance(test.op, ast.And) and branch) or (isinstance(test.op, ast.Or) and not branch):
                 parts = test.values
             else:
                 parts = []
+                for t in test.values:
+                    if _gate_polarity(S.canon(t, test)) is not None:
+                        gates.append(t)
         for t in parts:
-            p = _gate_polarity(t, b, t)
-            if p is not None and p == branch:
-                state = state | {"disk"}
+            p = _gate_polarity(S.canon(t, test))
+            if p is not None:
+                gates.append(t)
+                if p == branch:
+                    state = state | {"disk"}
         return state
-
-    return H.must_flow(fn.body, gen_kill, refine=refine, observe=observe)
-
-
-def g1_gate(ctx):
-    fn = ctx.repo.func(TUT, f"{CLS}.run")
-    site = ctx.site(TUT, fn)
-    fl = H.Floor(ctx, "C17-G1")
-    sinks = []
 
     def observe(state, node):
         kinds = []
         for c in au.calls(node):
             t = au.call_tail(c)
-            if t in ("spsolve", "solve", "factorized", "splu"):
+            if t in ("spsolve", "solve", "factorized", "splu", "lsqr", "cg"):
                 kinds.append(("linear solve", c))
             if t == "_initialize_boundary":
                 kinds.append(("boundary initialisation", c))
@@ -145,248 +337,69 @@ def g1_gate(ctx):
         for k, n in kinds:
             sinks.append((k, n, "disk" in state))
 
-    _gate_flow(ctx, fn, observe=observe)
+    H.must_flow(fn.body, lambda node: (set(), set()), refine=refine, observe=observe)
+    if not gates:
+        for st in au.stmts(fn.body):
+            if isinstance(st, (ast.If, ast.Assert, ast.While)):
+                k = _wrong_gate_constant(S.canon(st.test, st))
+                if k is not None:
+                    ctx.fail("C17-G1", ctx.site(TUT, fn0, st), "run: the Euler characteristic of the mesh is compared with a constant other than 1",
+                             f"compared with {k}: a topological disk has Euler characteristic 1")
+                    return
+        # is the characteristic tested anywhere else in the class (constructor, another method)?
+        m = ctx.repo.module(TUT)
+        elsewhere = []
+        for name, (mm, f, owner) in ctx.repo.methods(m, m.classes[CLS]).items():
+            if any(au.call_tail(c) == "euler_characteristic" for c in au.calls(f)):
+                elsewhere.append(name)
+        tests_something = any(isinstance(st, ast.Raise) for st in au.stmts(fn.body)) or any(
+            isinstance(st, ast.Raise) for name, (mm, f, owner) in ctx.repo.methods(m, m.classes[CLS]).items() if owner.name not in ("Worker", "Logger", "object")
+            and name not in ("log", "warn") for st in au.stmts(f.body))
+        if not elsewhere and not tests_something:
+            ctx.fail("C17-G1", site, "run computes the embedding without rejecting any input",
+                     "run() never raises and the Euler characteristic is not consulted anywhere in the class: a surface that is not a topological disk "
+                     "(sphere, annulus, two components) must be rejected before any coordinates are computed")
+        else:
+            ctx.undecided("C17-G1", site, "run: the test of the Euler characteristic of the mesh is not recognised",
+                          "surfaces that are not topological disks must be rejected before any coordinates are computed")
+        return
     if not [s for s in sinks if s[0] == "linear solve"]:
-        ctx.fail("C17-G1", site, "run: linear solve not found", "the gate must dominate the solve; no spsolve / solve call is left in run()")
+        ctx.undecided("C17-G1", site, "run: the linear solve is not recognised", "the gate must dominate the solve")
         return
     for kind, node, ok in sinks:
-        ctx.check(ok, "C17-G1", ctx.site(TUT, fn, node), f"run: {kind} not dominated by the test euler_characteristic(self.mesh) == 1",
+        ctx.check(ok, "C17-G1", ctx.site(TUT, fn0, node), f"run: {kind} not dominated by the test euler_characteristic(self.mesh) == 1",
                   "a surface that is not a topological disk (sphere, annulus, two components) must be rejected before any coordinates are computed",
                   note=f"{kind} dominated by the Euler-characteristic gate")
-    fl.require(4)
 
 
-# ------------------------------------------------------------------ C17-Q1
-def _mode_branch(fn, mode_param, which):
-    """body of the if/elif branch `boundary_mode == <...>.which`"""
-    for st in au.stmts(fn.body):
-        if isinstance(st, ast.If):
-            t = st.test
-            if isinstance(t, ast.Compare) and len(t.ops) == 1 and isinstance(t.ops[0], (ast.Eq, ast.Is)):
-                sides = [t.left, t.comparators[0]]
-                if any(H.is_name(x, mode_param) for x in sides) and any(
-                        isinstance(x, ast.Attribute) and x.attr == which for x in sides):
-                    return st
-    return None
-
-
-def _range_of(it):
-    """(start expr, stop expr) of a range(...) call, step 1 only"""
-    if isinstance(it, ast.Call) and au.call_tail(it) == "range" and not it.keywords:
-        if len(it.args) == 1:
-            return ast.Constant(value=0), it.args[0]
-        if len(it.args) == 2:
-            return it.args[0], it.args[1]
-    return None
-
-
-def q1_square(ctx):
-    fn = ctx.repo.func(TUT, f"{CLS}._initialize_boundary")
-    site = ctx.site(TUT, fn)
-    fl = H.Floor(ctx, "C17-Q1")
-    ps = au.params(fn, skip_self=True)
-    mode = ps[0] if ps else None
-    br = _mode_branch(fn, mode, "SQUARE")
-    if br is None:
-        ctx.fail("C17-Q1", site, "_initialize_boundary: branch for BoundaryMode.SQUARE not found", "")
-        return
-    b = sym.Bindings(fn)
-    # names of the two coordinate arrays: the value returned at the end of the function
-    rets = [r for r in fn.body if isinstance(r, ast.Return)]
-    if not (rets and isinstance(rets[-1].value, ast.Tuple) and len(rets[-1].value.elts) == 2
-            and all(isinstance(x, ast.Name) for x in rets[-1].value.elts)):
-        ctx.fail("C17-Q1", site, "_initialize_boundary: final `return U, V` not found", "")
-        return
-    U, V = (x.id for x in rets[-1].value.elts)
-    # n
-    nname = None
-    for st in fn.body:
-        if isinstance(st, ast.Assign) and len(st.targets) == 1 and isinstance(st.targets[0], ast.Name) \
-                and au.src(st.value) == "len(self.mesh.boundary_vertices)":
-            nname = st.targets[0].id
-    zeros = (b.resolve(ast.Name(id=U, ctx=ast.Load()), at=br, keep=(nname,)),
-             b.resolve(ast.Name(id=V, ctx=ast.Load()), at=br, keep=(nname,)))
-    ok_zero = nname is not None and all(isinstance(z, ast.Call) and au.call_tail(z) == "zeros" and z.args
-                                        and H.is_name(z.args[0], nname) for z in zeros)
-    ctx.check(ok_zero, "C17-Q1", site, "_initialize_boundary: U, V are not np.zeros(n) with n = len(self.mesh.boundary_vertices)",
-              "coordinates that are not stored explicitly are taken to be 0 (sides V = 0 and U = 0 of the square)",
-              note="U, V start as zeros(n), n = number of border vertices")
-    if not ok_zero:
-        return
-
-    def lit_list(e, at):
-        r = b.resolve(e, at=at, keep=(nname,))
-        return r if isinstance(r, (ast.List, ast.Tuple)) else None
-
-    def index_expr(e, at):
-        """resolve `corners[k]` to the k-th element of the literal list"""
-        class T(ast.NodeTransformer):
-            def visit_Subscript(self, node):
-                self.generic_visit(node)
-                if isinstance(node.value, ast.Name) and isinstance(au.const(node.slice), int):
-                    l = lit_list(node.value, at)
-                    if l is not None and -len(l.elts) <= au.const(node.slice) < len(l.elts):
-                        return l.elts[au.const(node.slice)]
-                return node
-        import copy
-        return T().visit(copy.deepcopy(e))
-
-    # corners: direct stores of the branch body
-    corners = {}   # repr(poly(index)) -> {"U": Poly, "V": Poly, "idx": Poly}
-    for st, tgt, val in H.subscript_stores([s for s in br.body if not isinstance(s, (ast.For, ast.While))],
-                                           lambda x: H.is_name(x, U) or H.is_name(x, V)):
-        if val is None:
-            continue
-        idx = H.poly(index_expr(tgt.slice, st))
-        c = corners.setdefault(repr(idx), {"idx": idx})
-        c[tgt.value.id] = H.poly(b.resolve(val, at=st, keep=(nname,)))
-    for c in corners.values():
-        c.setdefault(U, sym.Poly())
-        c.setdefault(V, sym.Poly())
-    npoly = sym.Poly.atom(nname)
-    if len(corners) != 4:
-        ctx.fail("C17-Q1", ctx.site(TUT, fn, br), f"square target: {len(corners)} corner position(s) stored instead of 4", "")
-        return
-    ctx.ok("C17-Q1", ctx.site(TUT, fn, br), "square target: 4 corner stores")
-    pos_set = {(repr(c[U]), repr(c[V])) for c in corners.values()}
-    ctx.check(pos_set == {("0", "0"), ("1", "0"), ("1", "1"), ("0", "1")}, "C17-Q1", ctx.site(TUT, fn, br),
-              "square target: the four corners are not placed at (0,0), (1,0), (1,1), (0,1)",
-              f"found {sorted(pos_set)}", note="corners at the four vertices of the unit square")
-    sides = [s for s in br.body if isinstance(s, ast.For)]
-    if len(sides) != 4:
-        ctx.fail("C17-Q1", ctx.site(TUT, fn, br), f"square target: {len(sides)} side loop(s) instead of 4", "")
-        return
-    inv_atoms = lambda p: {a for a in p.atoms() if a.startswith("1/(")}
-    starts = {}
-    for lp in sides:
-        lsite = ctx.site(TUT, fn, lp)
-        # header
-        first, cnt_first, rng = {}, None, None
-        it, t = lp.iter, lp.target
-        if isinstance(t, ast.Name) and _range_of(it):
-            rng = _range_of(it)
-            first[t.id] = H.poly(b.resolve(rng[0], at=lp, keep=(nname,)))
-            loopvars = [t.id]
-        elif isinstance(t, ast.Tuple) and len(t.elts) == 2 and all(isinstance(x, ast.Name) for x in t.elts) \
-                and isinstance(it, ast.Call) and au.call_tail(it) == "enumerate" and it.args and _range_of(it.args[0]):
-            rng = _range_of(it.args[0])
-            start = it.args[1] if len(it.args) > 1 else None
-            for kw in it.keywords:
-                if kw.arg == "start":
-                    start = kw.value
-            first[t.elts[0].id] = H.poly(b.resolve(start, at=lp, keep=(nname,))) if start is not None else sym.Poly()
-            first[t.elts[1].id] = H.poly(b.resolve(rng[0], at=lp, keep=(nname,)))
-            loopvars = [t.elts[0].id, t.elts[1].id]
-        else:
-            ctx.fail("C17-Q1", lsite, "square target: side loop is not `for i in range(a, b)` / `for i, v in enumerate(range(a, b))`",
-                     f"cannot read the parametrisation of `{au.src(lp.iter)}`")
-            continue
-        sts = H.subscript_stores(lp.body, lambda x: H.is_name(x, U) or H.is_name(x, V))
-        if not sts:
-            ctx.fail("C17-Q1", lsite, "square target: side loop stores no coordinate", "")
-            continue
-        idx_first = None
-        pos_first = {U: sym.Poly(), V: sym.Poly()}
-        pos_sym = {U: sym.Poly(), V: sym.Poly()}
-        consistent = True
-        for st, tgt, val in sts:
-            if val is None:
-                consistent = False
-                continue
-            k = H.poly(b.resolve(tgt.slice, at=st, keep=tuple(loopvars) + (nname,)), env=first)
-            if idx_first is None:
-                idx_first = k
-            elif not (k == idx_first):
-                consistent = False
-            rv = b.resolve(val, at=st, keep=tuple(loopvars) + (nname,))
-            pos_first[tgt.value.id] = H.poly(rv, env=first)
-            pos_sym[tgt.value.id] = H.poly(rv)
-        if not consistent or idx_first is None:
-            ctx.fail("C17-Q1", lsite, "square target: side loop stores U and V at different indices", "")
-            continue
-        # which corner precedes
-        prev = [c for c in corners.values() if (idx_first - 1) == c["idx"]]
-        lo = H.poly(b.resolve(rng[0], at=lp, keep=(nname,)))
-        hi = H.poly(b.resolve(rng[1], at=lp, keep=(nname,)))
-        nxt = [c for c in corners.values() if hi == c["idx"]]
-        if not prev:
-            ctx.fail("C17-Q1", lsite, "square target: a side loop does not start right after a corner",
-                     f"`{au.src(lp.iter)}` starts at index {idx_first!r}: the vertex following a corner would keep the default position (0,0) or be placed twice")
-            continue
-        pc = prev[0]
-        label = f"side after corner ({pc[U]!r},{pc[V]!r})"
-        zero = [c for c in corners.values() if c["idx"].is_zero()]
-        end_c = nxt[0] if nxt else (zero[0] if (hi == npoly and zero) else None)
-        starts[repr(pc["idx"])] = repr(end_c["idx"]) if end_c is not None else None
-        ends_ok = end_c is not None and end_c is not pc
-        ctx.check(ends_ok and lo == pc["idx"] + 1, "C17-Q1", lsite, f"square target, {label}: the loop does not run up to the next corner",
-                  f"range is [{lo!r}, {hi!r}); vertices left out keep position (0,0) and coincide with the first corner",
-                  note=f"{label}: covers the indices up to the next corner")
-        # (1) first vertex differs from the corner
-        same = H.approx_eq(pos_first[U], pc[U]) and H.approx_eq(pos_first[V], pc[V])
-        ctx.check(not same, "C17-Q1", lsite, f"square target, {label}: the first vertex of the side is given the position of the corner",
-                  f"the loop counter starts at {', '.join(f'{k}={v!r}' for k, v in first.items())}, so the vertex after the corner gets "
-                  f"({pos_first[U]!r}, {pos_first[V]!r}) = the corner: two border vertices coincide, the triangles between them are degenerate",
-                  note=f"{label}: first vertex at ({pos_first[U]!r}, {pos_first[V]!r}) != corner")
-        # (2) position depends on the loop counter
-        dep = any(pos_sym[w].degree_in(x) > 0 for w in (U, V) for x in loopvars)
-        ctx.check(dep, "C17-Q1", lsite, f"square target, {label}: the position does not depend on the loop counter",
-                  "all vertices of the side would coincide", note=f"{label}: position varies with the counter")
-        # (3) first vertex is next to the corner for large n
-        dU, dV = pos_first[U] - pc[U], pos_first[V] - pc[V]
-        ats = (dU.atoms() | dV.atoms())
-        if ats <= inv_atoms(dU) | inv_atoms(dV):
-            env0 = {a: 0 for a in ats}
-            near = abs(float(dU.eval(env0))) < 1e-9 and abs(float(dV.eval(env0))) < 1e-9
-            ctx.check(near, "C17-Q1", lsite, f"square target, {label}: the side does not leave from that corner",
-                      f"first vertex at ({pos_first[U]!r}, {pos_first[V]!r}) stays at distance O(1) of the corner ({pc[U]!r},{pc[V]!r}) for every n: "
-                      "border order around the square is broken", note=f"{label}: leaves from its corner")
-    chain_ok = len(starts) == 4 and sorted(starts) == sorted(v for v in starts.values() if v is not None)
-    ctx.check(chain_ok, "C17-Q1", ctx.site(TUT, fn, br), "square target: the four sides do not join the four corners into one cycle",
-              f"side start -> end corner indices: {starts}; every corner must be left by one side and reached by one side "
-              "(index n wraps to corner 0)", note="sides chain the four corners cyclically")
-    fl.require(12)
-
-
-# ------------------------------------------------------------------ C17-B1
-def system_facts(ctx, facts):
-    """free / border index names and the solution -> boundary pairing, from the solves of run()"""
-    fn, b = facts["fn"], facts["b"]
-    out = []
-    def one(e, at):
-        """one resolution step for a bare name (keeps the index-list names visible)"""
-        if isinstance(e, ast.Name):
-            d = b.reaching(e.id, at)
-            return d if d is not None else e
-        return e
-
-    for name, M, rhs, st in facts["solves"]:
-        mv = H.matvec(one(rhs, st))
-        LI = H.block_parts(one(M, st))
-        LB = H.block_parts(one(mv[1], st)) if mv else None
-        out.append({"name": name, "stmt": st, "sign": mv[0] if mv else None, "x": mv[2] if mv else None, "LI": LI, "LB": LB})
-    return out
-
-
+# ------------------------------------------------------------------ C17-B1 (order of the border)
 def b1_border(ctx, facts):
-    fn, b = facts["fn"], facts["b"]
-    site = ctx.site(TUT, fn)
-    fl = H.Floor(ctx, "C17-B1")
-    if facts["init_call"] is None:
-        ctx.fail("C17-B1", site, "run: `Ubnd, Vbnd = self._initialize_boundary(...)` not found", "")
+    fn0, fn, S, site = facts["fn0"], facts["fn"], facts["S"], facts["site"]
+    if len(facts["inits"]) != 1:
+        ctx.undecided("C17-B1", site, "run: the call of self._initialize_boundary is not recognised", "")
+    else:
+        c = facts["inits"][0]
+        ib = ctx.repo.func(TUT, f"{CLS}._initialize_boundary")
+        csite = ctx.site(TUT, fn0, c)
+        if not au.params(ib, skip_self=True):
+            ctx.ok("C17-B1", csite, "boundary initialised for the mode of the instance")
+        else:
+            kw = {k.arg: k.value for k in c.keywords}
+            a = c.args[0] if c.args else kw.get(au.params(ib, skip_self=True)[0])
+            ac = S.canon(a, c) if a is not None else None
+            if ac is not None and au.is_self_attr(ac, "_bnd_mode"):
+                ctx.ok("C17-B1", csite, "boundary initialised for self._bnd_mode")
+            elif ac is not None and isinstance(ac, ast.Attribute) and ac.attr in ("CIRCLE", "SQUARE", "CUSTOM"):
+                ctx.fail("C17-B1", csite, "run: the boundary is not initialised for self._bnd_mode",
+                         f"a fixed mode `{au.src(ac)}` is passed: the mode that selects the border order must be the one that shapes the boundary")
+            else:
+                ctx.undecided("C17-B1", csite, "run: the mode passed to _initialize_boundary is not recognised", "")
+    bs = [s["LB"][2] for s in facts["solves"] if s["LB"] is not None]
+    if not bs or any(not au.same(b, bs[0]) for b in bs):
+        ctx.undecided("C17-B1", site, "run: the border index list (columns of L[free,:][:,border]) is not recognised", "")
         return
-    c = facts["init_call"]
-    ctx.check(len(c.args) == 1 and au.is_self_attr(c.args[0], "_bnd_mode") and not c.keywords, "C17-B1", ctx.site(TUT, fn, c),
-              "run: the boundary is not initialised for self._bnd_mode",
-              "the mode that selects the border order must be the one that shapes the boundary", note="boundary initialised for self._bnd_mode")
-    sysf = system_facts(ctx, facts)
-    bnames = {au.src(s["LB"][2]) for s in sysf if s["LB"] is not None and isinstance(s["LB"][2], ast.Name)}
-    if len(bnames) != 1:
-        ctx.fail("C17-B1", site, "run: border index list (columns of L[free,:][:,border]) not found", f"candidates: {sorted(bnames)}")
-        return
-    B = bnames.pop()
+    B = bs[0]
     facts["B"] = B
-    defs = [st for st in au.stmts(fn.body) if any(B in au.assigned_names(t) for t in au.assign_targets(st))]
 
     def atom(x, boolean):
         if isinstance(x, ast.Compare) and len(x.ops) == 1 and isinstance(x.ops[0], (ast.Eq, ast.NotEq, ast.Is, ast.IsNot)):
@@ -394,362 +407,604 @@ def b1_border(ctx, facts):
             if any(au.is_self_attr(s, "_bnd_mode") for s in sides) and any(isinstance(s, ast.Attribute) and s.attr == "CUSTOM" for s in sides):
                 n = H.name("custom")
                 return n if isinstance(x.ops[0], (ast.Eq, ast.Is)) else ast.UnaryOp(op=ast.Not(), operand=n)
+            if any(au.is_self_attr(s, "_custom_bnd") for s in sides) and any(isinstance(s, ast.Constant) and s.value is None for s in sides):
+                n = H.name("custom")
+                return ast.UnaryOp(op=ast.Not(), operand=n) if isinstance(x.ops[0], (ast.Eq, ast.Is)) else n
         return None
     n_cycle = 0
-    for st in defs:
-        v = st.value if isinstance(st, ast.Assign) else None
-        from_cycle = False
-        if isinstance(st, ast.Assign) and len(st.targets) == 1:
-            t = st.targets[0]
-            call = v
-            if isinstance(v, ast.Subscript) and au.const(v.slice) == 0:
-                call = v.value
-                first = H.is_name(t, B)
-            else:
-                first = isinstance(t, (ast.Tuple, ast.List)) and len(t.elts) == 2 and H.is_name(t.elts[0], B)
-            if isinstance(call, ast.Call) and au.call_tail(call) == "extract_border_cycle" and first \
-                    and call.args and au.src(call.args[0]) == "self.mesh":
-                from_cycle = True
-        if from_cycle:
+    for conds, leaf in hj_scope.ifexp_leaves(B):
+        is_cycle = isinstance(leaf, ast.Subscript) and isinstance(leaf.value, ast.Call) and au.call_tail(leaf.value) == "extract_border_cycle" \
+            and leaf.value.args and au.src(leaf.value.args[0]) == "self.mesh"
+        if is_cycle and au.const(leaf.slice) == 0:
             n_cycle += 1
-            ctx.ok("C17-B1", ctx.site(TUT, fn, st), "border order = first result of extract_border_cycle(self.mesh)")
+            ctx.ok("C17-B1", site, "border order = first result of extract_border_cycle(self.mesh)")
             continue
-        ab = H.Abstractor(atom)
-        code = ab.boolean(H.conj([(t, p) for t, p, _ in H.path_condition(st, stop=fn)]))
-        wit, n = H.compare(ast.BoolOp(op=ast.And(), values=[code, ast.UnaryOp(op=ast.Not(), operand=H.name("custom"))]), "False")
-        ctx.check(wit is None, "C17-B1", ctx.site(TUT, fn, st),
-                  "run: the border index list is not taken from extract_border_cycle although the target is not custom",
-                  f"`{B}` = `{au.src(v) if v is not None else '?'}`: circle and square positions are assigned along the border: the k-th position must go to the k-th vertex of the border cycle, "
-                  "not to the k-th border vertex in index order",
-                  note="unsorted border list only for the custom target")
-    ctx.check(n_cycle >= 1, "C17-B1", site, "run: border order is never taken from extract_border_cycle(self.mesh)",
-              "border vertices must be placed on the convex shape in border order", note="extract_border_cycle provides the order")
-    # ---- circle
-    ib = ctx.repo.func(TUT, f"{CLS}._initialize_boundary")
-    ps = au.params(ib, skip_self=True)
-    br = _mode_branch(ib, ps[0] if ps else None, "CIRCLE")
-    isite = ctx.site(TUT, ib)
-    if br is None:
-        ctx.fail("C17-B1", isite, "_initialize_boundary: branch for BoundaryMode.CIRCLE not found", "")
-        return
-    bb = sym.Bindings(ib)
-    rets = [r for r in ib.body if isinstance(r, ast.Return)]
-    if not (rets and isinstance(rets[-1].value, ast.Tuple) and len(rets[-1].value.elts) == 2
-            and all(isinstance(x, ast.Name) for x in rets[-1].value.elts)):
-        ctx.fail("C17-B1", isite, "_initialize_boundary: final `return U, V` not found", "")
-        return
-    U, V = (x.id for x in rets[-1].value.elts)
-    loops = [s for s in br.body if isinstance(s, ast.For)]
-    if len(loops) != 1 or not isinstance(loops[0].target, ast.Name):
-        ctx.fail("C17-B1", ctx.site(TUT, ib, br), "circle target: single loop over the border positions not found", "")
-        return
-    lp = loops[0]
-    i = lp.target.id
-    rng = _range_of(lp.iter)
-    nexpr = bb.resolve(rng[1], at=lp) if rng else None
-    ok_rng = rng is not None and au.const(rng[0]) == 0 and au.src(nexpr) == "len(self.mesh.boundary_vertices)"
-    ctx.check(ok_rng, "C17-B1", ctx.site(TUT, ib, lp), "circle target: the loop is not `for i in range(len(self.mesh.boundary_vertices))`",
-              f"every border vertex needs a position; found `{au.src(lp.iter)}`", note="circle: i in range(n), n = number of border vertices")
-    parts = {}
-    for st, tgt, val in H.subscript_stores(lp.body, lambda x: H.is_name(x, U) or H.is_name(x, V)):
-        if val is None or not H.is_name(tgt.slice, i):
-            parts[tgt.value.id] = ("?", None, None)
+        if is_cycle:
+            ctx.fail("C17-B1", site, "run: the border index list is the edge list of extract_border_cycle, not its vertex list", "")
             continue
-        r = bb.resolve(val, at=st, keep=(i,))
-        if isinstance(r, ast.Attribute) and r.attr in ("real", "imag") and isinstance(r.value, ast.Call) \
-                and au.call_tail(r.value) == "rect" and len(r.value.args) == 2:
-            parts[tgt.value.id] = (r.attr, r.value.args[0], r.value.args[1])
-        elif isinstance(r, ast.Call) and au.call_tail(r) in ("cos", "sin") and len(r.args) == 1:
-            parts[tgt.value.id] = ({"cos": "real", "sin": "imag"}[au.call_tail(r)], ast.Constant(value=1.0), r.args[0])
-        else:
-            parts[tgt.value.id] = ("?", None, None)
-    ok_parts = set(parts) == {U, V} and {parts[U][0], parts[V][0]} == {"real", "imag"} \
-        and au.same(parts[U][2], parts[V][2]) and au.same(parts[U][1], parts[V][1])
-    ctx.check(ok_parts, "C17-B1", ctx.site(TUT, ib, lp), "circle target: (U[i], V[i]) is not (real, imaginary) part of one point rect(r, angle)",
-              "found " + str({k: v[0] for k, v in parts.items()}),
-              note="circle: U, V = real, imag of rect(r, angle)")
-    if ok_parts:
-        # the angle, with n resolved
-        ang_r = H.poly(bb.resolve(parts[U][2], at=lp, keep=(i,)))
-        inv = "1/(<len(self.mesh.boundary_vertices)>)"
-        want = sym.Poly({tuple(sorted((i, inv))): Fraction(2 * math.pi).limit_denominator(10 ** 9)})
-        varying = sym.Poly({k: v for k, v in ang_r.t.items() if i in k})
-        ok_ang = H.approx_eq(varying, want, 1e-6) or H.approx_eq(varying, -want, 1e-6)
-        rad = order.fold_const(parts[U][1])
-        ctx.check(ok_ang and rad is not None and rad > 0, "C17-B1", ctx.site(TUT, ib, lp),
-                  "circle target: the angle of vertex i is not 2*pi*i/n (radius a positive constant)",
-                  f"found angle `{au.src(parts[U][2])}` = {ang_r!r}: the n border vertices must be spread once around the circle at distinct positions",
-                  note="circle: angle = 2*pi*i/n")
-    fl.require(6)
+        if au.src(leaf) in ("self.mesh.boundary_vertices",) or (isinstance(leaf, ast.Call) and au.call_tail(leaf) in ("list", "sorted")
+                                                               and leaf.args and au.src(leaf.args[0]) == "self.mesh.boundary_vertices"):
+            ab = H.Abs(atom)
+            code = ab.boolean(H.conj(conds))
+            if ab.unknown:
+                ctx.undecided("C17-B1", site, "run: the condition under which the unsorted border list is used is not recognised", f"{ab.unknown}")
+                continue
+            wit, n = H.compare(ast.BoolOp(op=ast.And(), values=[code, ast.UnaryOp(op=ast.Not(), operand=H.name("custom"))]), "False")
+            ctx.check(wit is None, "C17-B1", site,
+                      "run: the border index list is not taken from extract_border_cycle although the target is not custom",
+                      "circle and square positions are assigned along the border: the k-th position must go to the k-th vertex of the border cycle, "
+                      "not to the k-th border vertex in index order", note="unsorted border list only for the custom target")
+            continue
+        ctx.undecided("C17-B1", site, "run: an origin of the border index list is not recognised", f"`{au.src(leaf)[:80]}`")
+    if n_cycle == 0 and not ctx.undecided_list:
+        ctx.fail("C17-B1", site, "run: border order is never taken from extract_border_cycle(self.mesh)",
+                 "border vertices must be placed on the convex shape in border order")
 
 
 # ------------------------------------------------------------------ C17-H1
 def h1_system(ctx, facts):
-    fn, b = facts["fn"], facts["b"]
-    site = ctx.site(TUT, fn)
-    fl = H.Floor(ctx, "C17-H1")
-    sysf = system_facts(ctx, facts)
-    if len(sysf) != 2:
-        ctx.fail("C17-H1", site, f"run: {len(sysf)} linear solve(s) instead of one per coordinate", "")
+    fn0, fn, S, site = facts["fn0"], facts["fn"], facts["S"], facts["site"]
+    solves = facts["solves"]
+    if not solves:
+        ctx.undecided("C17-H1", site, "run: the linear solve(s) of the harmonic extension are not recognised", f"after inlining {facts['inlined']}")
         return
-    frees, bnds, mats = set(), set(), set()
-    for s in sysf:
-        ssite = ctx.site(TUT, fn, s["stmt"])
+    covered = []
+    for s in solves:
+        ssite = ctx.site(TUT, fn0, s["call"])
         if s["LI"] is None or s["LB"] is None or s["sign"] is None:
-            ctx.fail("C17-H1", ssite, f"run: solve for `{s['name']}` is not spsolve(L[free,:][:,free], -L[free,:][:,border].dot(x_border))", "")
+            ctx.undecided("C17-H1", ssite, "run: a solve is not of the form solve(L[free,:][:,free], -L[free,:][:,border] . x_border)", "")
             continue
         M1, r1, c1 = s["LI"]
         M2, r2, c2 = s["LB"]
         ok = au.same(M1, M2) and au.same(r1, c1) and au.same(r1, r2) and not au.same(c2, r1)
-        ctx.check(ok, "C17-H1", ssite, f"run: the system for `{s['name']}` does not use one free/border partition of one matrix",
-                  f"rows/cols: L_II = [{au.src(r1)}, {au.src(c1)}], L_IB = [{au.src(r2)}, {au.src(c2)}]: every interior vertex must be the weighted "
-                  "average of its neighbours, interior or border", note=f"{s['name']}: L[free,free], L[free,border]")
-        ctx.check(s["sign"] == -1, "C17-H1", ssite, f"run: right-hand side for `{s['name']}` is not minus L[free,border] x_border",
+        ctx.check(ok, "C17-H1", ssite, "run: a coordinate system does not use one free/border partition of one matrix",
+                  f"rows/cols: L_II = [{au.src(r1)[:40]}, {au.src(c1)[:40]}], L_IB = [{au.src(r2)[:40]}, {au.src(c2)[:40]}]: every interior vertex must be the weighted "
+                  "average of its neighbours, interior or border", note="L[free,free], L[free,border]")
+        ctx.check(s["sign"] == -1, "C17-H1", ssite, "run: a right-hand side is not minus L[free,border] x_border",
                   "L_II u + L_IB u_B = 0; with the wrong sign the interior is mirrored through the origin and triangles near the border flip",
-                  note=f"{s['name']}: rhs = -L_IB x_B")
-        frees.add(au.src(r1)); bnds.add(au.src(c2)); mats.add(au.src(M1))
-    if len(frees) == 1 and len(bnds) == 1 and len(mats) == 1:
-        F = frees.pop()
-        facts["F"] = F
-        fdef = b.resolve(ast.Name(id=F, ctx=ast.Load()), at=sysf[0]["stmt"])
-        ctx.check(au.src(fdef) == "self.mesh.interior_vertices", "C17-H1", site, "run: the free index list is not self.mesh.interior_vertices",
-                  f"found `{au.src(fdef)}`", note="free = interior vertices")
-        lap = b.resolve(ast.parse(mats.pop(), mode="eval").body, at=sysf[0]["stmt"])
-        ok_lap = isinstance(lap, ast.Call) and au.call_tail(lap) == "laplacian" and lap.args and au.src(lap.args[0]) == "self.mesh" \
-            and len(lap.args) <= 2 and not any(k.arg in ("connection", "order") for k in lap.keywords)
-        cot = None
-        if ok_lap:
-            cot = lap.args[1] if len(lap.args) == 2 else next((k.value for k in lap.keywords if k.arg == "cotan"), None)
-        ctx.check(ok_lap and cot is not None and au.is_self_attr(cot, "_use_cotan"), "C17-H1", site,
-                  "run: the matrix is not operators.laplacian(self.mesh, cotan=self._use_cotan) (scalar, no connection)",
-                  "uniform weights unless cotangent weights are requested; a connection Laplacian is complex", note="scalar Laplacian, cotan=self._use_cotan")
-    else:
-        ctx.fail("C17-H1", site, "run: the two coordinate systems use different partitions / matrices",
-                 f"free {sorted(frees)}, border {sorted(bnds)}, matrix {sorted(mats)}")
-    fl.require(6)
+                  note="rhs = -L_IB x_B")
+        if s["coords"] is None:
+            ctx.undecided("C17-H1", ssite, "run: the boundary values of a solve are not recognised as results of _initialize_boundary", "")
+        else:
+            covered.append(s["coords"])
+        if ok:
+            if au.src(r1) == "self.mesh.interior_vertices":
+                ctx.ok("C17-H1", ssite, "free = interior vertices")
+            elif au.src(r1) in ("self.mesh.boundary_vertices", "self.mesh.id_vertices") or (isinstance(r1, ast.Subscript) and isinstance(r1.value, ast.Call)
+                                                                                            and au.call_tail(r1.value) == "extract_border_cycle"):
+                ctx.fail("C17-H1", ssite, "run: the free index list is not self.mesh.interior_vertices", f"found `{au.src(r1)[:60]}`")
+            else:
+                ctx.undecided("C17-H1", ssite, "run: the list of free (interior) vertices is not recognised", "")
+            lap = M1
+            while isinstance(lap, ast.Call) and isinstance(lap.func, ast.Attribute) and lap.func.attr in ("tocsc", "tocsr", "tolil") and not lap.args:
+                lap = lap.func.value
+            if not (isinstance(lap, ast.Call) and au.call_tail(lap) == "laplacian"):
+                ctx.undecided("C17-H1", ssite, "run: the matrix of the system is not recognised as operators.laplacian(...)", "")
+            else:
+                kws = {k.arg: k.value for k in lap.keywords}
+                names = ["mesh", "cotan", "connection", "order"]
+                for i, a in enumerate(lap.args):
+                    if i < len(names):
+                        kws[names[i]] = a
+                conn = kws.get("connection")
+                ok_lap = au.src(kws.get("mesh")) == "self.mesh" and (conn is None or (isinstance(conn, ast.Constant) and conn.value is None))
+                cot = kws.get("cotan")
+                if cot is None:
+                    ctx.fail("C17-H1", ssite, "run: the matrix is not operators.laplacian(self.mesh, cotan=self._use_cotan) (scalar, no connection)",
+                             "`cotan` is not passed: the library default (cotangent weights) is used whatever use_cotan says")
+                elif ok_lap and au.is_self_attr(cot, "_use_cotan"):
+                    ctx.ok("C17-H1", ssite, "scalar Laplacian, cotan=self._use_cotan")
+                elif not ok_lap or isinstance(cot, ast.Constant) or (isinstance(cot, ast.UnaryOp) and au.is_self_attr(cot.operand, "_use_cotan")):
+                    ctx.fail("C17-H1", ssite, "run: the matrix is not operators.laplacian(self.mesh, cotan=self._use_cotan) (scalar, no connection)",
+                             f"found `{au.src(lap)[:100]}`: uniform weights unless cotangent weights are requested; a connection Laplacian is complex")
+                else:
+                    ctx.undecided("C17-H1", ssite, "run: the `cotan` argument of the Laplacian is not recognised", "")
+    flat = [k for c in covered for k in c]
+    if covered and len(covered) == len(solves):
+        ctx.check(sorted(flat) == [0, 1], "C17-H1", site, "run: the two boundary coordinates are not each extended by one solve",
+                  f"boundary coordinates solved for: {flat} (0 = first, 1 = second result of _initialize_boundary)", note="one solve per coordinate")
 
 
-# ------------------------------------------------------------------ C17-S1
-def _branch_stores(body, uvs="uvs"):
-    """[(iter source, kind, first comp array, second comp array, ok index)] of the enumerate loops of one branch"""
-    out = []
-    for lp in body:
-        if not isinstance(lp, ast.For):
-            continue
-        if not (isinstance(lp.iter, ast.Call) and au.call_tail(lp.iter) == "enumerate" and len(lp.iter.args) == 1 and not lp.iter.keywords
-                and isinstance(lp.target, ast.Tuple) and len(lp.target.elts) == 2 and all(isinstance(x, ast.Name) for x in lp.target.elts)):
-            out.append((au.src(lp.iter), "?", None, None, lp))
-            continue
-        i, v = lp.target.elts[0].id, lp.target.elts[1].id
-        for st, tgt, val in H.subscript_stores(lp.body, lambda x: au.is_self_attr(x, uvs)):
-            kind = "?"
-            if H.is_name(tgt.slice, v) and st in lp.body:
-                kind = "vertex"
-            elif isinstance(tgt.slice, ast.Name):
-                inner = [l for l in H.loop_ancestors(st, stop=lp) if isinstance(l, ast.For)]
-                if len(inner) == 1 and H.is_name(inner[0].target, tgt.slice.id) and isinstance(inner[0].iter, ast.Call) \
-                        and au.call_tail(inner[0].iter) == "vertex_to_corners" and len(inner[0].iter.args) == 1 \
-                        and H.is_name(inner[0].iter.args[0], v) and not H.path_condition(st, stop=lp):
-                    kind = "corner"
-            a = bname = None
-            if isinstance(val, ast.Call) and au.call_tail(val) == "Vec" and len(val.args) == 2:
-                xs = val.args
-                if all(isinstance(x, ast.Subscript) and isinstance(x.value, ast.Name) and H.is_name(x.slice, i) for x in xs):
-                    a, bname = xs[0].value.id, xs[1].value.id
-            out.append((au.src(lp.iter.args[0]), kind, a, bname, st))
-    return out
+# ------------------------------------------------------------------ C17-S1 (run)
+def _scatter_store(ctx, facts, st, tgt, val, mode, lps, F, B, sol):
+    """`self.uvs[key] = Z[v]` with Z a (|V|, 2) array filled by `Z[free] = X`, `Z[border, k] = x_k` : 'ok' | 'bad' | '?' | None (other form)"""
+    fn0, fn, S = facts["fn0"], facts["fn"], facts["S"]
+    if not (isinstance(val, ast.Subscript) and isinstance(val.value, ast.Name) and isinstance(val.slice, ast.Name)):
+        return None
+    Z, v = val.value.id, val.slice.id
+    zdef = S.value(Z, st)
+    if not (isinstance(zdef, ast.Call) and au.call_tail(zdef) in ("zeros", "empty", "full") and zdef.args and isinstance(zdef.args[0], ast.Tuple)
+            and len(zdef.args[0].elts) == 2 and au.const(zdef.args[0].elts[1]) == 2 and au.src(zdef.args[0].elts[0]) == "len(self.mesh.vertices)"):
+        return None
+    # ---- gather: which vertex does the key belong to
+    if not lps:
+        return "?"
+    key = tgt.slice
+    outer = lps[-1]
+    elem, idx, seq, start = H.loop_elem(outer)
+    seqc = S.canon(seq, outer)
+    gather_ok = False
+    if mode == "vertex" and len(lps) == 1 and idx is None and H.is_name(elem, v) and H.is_name(key, v) \
+            and (au.src(seqc) == "self.mesh.id_vertices" or H.is_range_len(seqc, "self.mesh.vertices")):
+        gather_ok = True
+    if mode == "corner" and len(lps) == 1 and idx is not None and H.is_name(elem, v) and H.is_name(key, idx) and au.const(start) == 0 \
+            and au.src(seqc) == "self.mesh.face_corners":
+        gather_ok = True          # corner c belongs to vertex face_corners[c]
+    if mode == "corner" and len(lps) == 2 and idx is None and H.is_name(elem, v) and isinstance(key, ast.Name) and H.is_name(lps[0].target, key.id) \
+            and (au.src(seqc) == "self.mesh.id_vertices" or H.is_range_len(seqc, "self.mesh.vertices")):
+        ic = S.canon(lps[0].iter, lps[0], keep=(v,))
+        gather_ok = isinstance(ic, ast.Call) and au.call_tail(ic) == "vertex_to_corners" and len(ic.args) == 1 and H.is_name(ic.args[0], v)
+    if not gather_ok:
+        return "?"
+    # ---- scatter
+    got = {}
+    top_read = H.top_stmt_in(fn.body, st)
+    for s2, t2, v2 in H.subscript_stores(fn, lambda b: H.is_name(b, Z)):
+        top_w = H.top_stmt_in(fn.body, s2)
+        if v2 is None or top_w is None or top_read is None or not H.block_pos(top_w) < H.block_pos(top_read) or not any(s2 is z for z in fn.body):
+            return "?"
+        sl = t2.slice
+        col = None
+        if isinstance(sl, ast.Tuple) and len(sl.elts) == 2:
+            col = au.const(sl.elts[1])
+            sl = sl.elts[0]
+            if not isinstance(col, int):
+                return "?"
+        rows = S.canon(sl, s2)
+        which = "F" if au.same(rows, F) else ("B" if au.same(rows, B) else None)
+        vc = S.canon(v2, s2)
+        if which is None:
+            return "?"
+        if col is None:
+            # both columns at once: a two-column solution whose columns are coordinates 0, 1 in this order
+            if which == "F" and sorted(sol) == [0, 1] and all(au.same(sol[k][0], vc) and sol[k][1] == k for k in sol):
+                got[("F", 0)], got[("F", 1)] = 0, 1
+            else:
+                return "?"
+        else:
+            k = _init_coord(vc)
+            if k is not None:
+                got[(which, col)] = ("B", k)
+            else:
+                hit = [kk for kk, (canon, c) in sol.items() if c is None and au.same(canon, vc)]
+                if len(hit) != 1:
+                    return "?"
+                got[(which, col)] = ("F", hit[0])
+    want = {("F", 0): ("F", 0), ("F", 1): ("F", 1), ("B", 0): ("B", 0), ("B", 1): ("B", 1)}
+    norm = {k: (v if isinstance(v, tuple) else ("F", v)) for k, v in got.items()}
+    if set(norm) != set(want):
+        return "?"
+    if norm == want:
+        ctx.ok("C17-S1", ctx.site(TUT, fn0, st), f"per-{mode} branch reads the coordinates of its vertex from the scattered array")
+        return "ok"
+    ctx.fail("C17-S1", ctx.site(TUT, fn0, st),
+             f"run, per-{mode} branch: stored values are not (U[i], V[i]) over enumerate(free) and (Ubnd[i], Vbnd[i]) over enumerate(border)",
+             f"the array of all coordinates is filled with {sorted((k, v) for k, v in norm.items() if want[k] != v)} (rows, column) <- (source, coordinate)")
+    return "bad"
 
 
 def s1_siblings(ctx, facts):
-    fn, b = facts["fn"], facts["b"]
-    site = ctx.site(TUT, fn)
-    fl = H.Floor(ctx, "C17-S1")
-    br = None
-    for st in fn.body:
-        if isinstance(st, ast.If) and st.orelse:
-            t = st.test
-            neg = False
-            if isinstance(t, ast.UnaryOp) and isinstance(t.op, ast.Not):
-                t, neg = t.operand, True
-            if au.is_self_attr(t, "save_on_corners"):
-                br = (st, neg)
-    if br is None:
-        ctx.fail("C17-S1", site, "run: if/else on self.save_on_corners not found", "")
+    fn0, fn, S, site = facts["fn0"], facts["fn"], facts["S"], facts["site"]
+    solves = facts["solves"]
+    B = facts.get("B")
+    ok_sys = solves and all(s["LI"] is not None and s["coords"] is not None for s in solves) and B is not None
+    # names that alias the attribute: self.uvs = N
+    aliases = {st.value.id for st in au.stmts(fn.body) if isinstance(st, ast.Assign) and isinstance(st.value, ast.Name)
+               and any(au.is_self_attr(t, "uvs") for t in st.targets)}
+    stores = [(st, tgt, val) for st, tgt, val in H.subscript_stores(fn, lambda x: au.is_self_attr(x, "uvs") or (isinstance(x, ast.Name) and x.id in aliases))]
+    if not stores or not ok_sys:
+        ctx.undecided("C17-S1", site, "run: the stores of the coordinates into self.uvs / the solutions they come from are not recognised", "")
         return
-    st, neg = br
-    cor, ver = (st.orelse, st.body) if neg else (st.body, st.orelse)
-    sysf = system_facts(ctx, facts)
-    sol = {s["name"]: (au.src(s["x"]) if s["x"] is not None else None) for s in sysf}   # U -> Ubnd
-    F, B = facts.get("F"), facts.get("B")
-    ub, vb = facts["ubnd"], facts["vbnd"]
-    usol = [k for k, x in sol.items() if x == ub]
-    vsol = [k for k, x in sol.items() if x == vb]
-    if not (len(usol) == 1 and len(vsol) == 1 and F and B):
-        ctx.fail("C17-S1", site, "run: solutions for the two boundary coordinates not identified",
-                 f"solves: {sol}, boundary coordinates: ({ub}, {vb})")
-        return
-    want = {(F, usol[0], vsol[0]), (B, ub, vb)}
-    for body, kind in ((cor, "corner"), (ver, "vertex")):
-        got = _branch_stores(body)
-        bad_kind = [g for g in got if g[1] != kind]
-        gs = {(g[0], g[2], g[3]) for g in got}
-        anchor = body[0] if body else st
-        ctx.check(not bad_kind and bool(got), "C17-S1", ctx.site(TUT, fn, anchor),
-                  f"run, per-{kind} branch: a store into self.uvs is not keyed by " + ("every corner of the enumerated vertex" if kind == "corner" else "the enumerated vertex"),
-                  "the coordinates of vertex v must reach " + ("all corners vertex_to_corners(v)" if kind == "corner" else "uvs[v]"),
-                  note=f"per-{kind} branch keyed by {kind}")
-        ctx.check(gs == want, "C17-S1", ctx.site(TUT, fn, anchor),
-                  f"run, per-{kind} branch: stored values are not (U[i], V[i]) over enumerate(free) and (Ubnd[i], Vbnd[i]) over enumerate(border)",
-                  f"expected {sorted(want)}, found {sorted((a, str(x), str(y)) for a, x, y in gs)}: position i of each solution vector belongs to the i-th "
-                  "vertex of the list that indexed the matrix block; the two storage modes must agree",
-                  note=f"per-{kind} branch stores {sorted(want)}")
-        # attribute container
-        crea = [s2 for s2 in body if isinstance(s2, ast.Assign) and any(au.is_self_attr(t, "uvs") for t in s2.targets)]
-        cont = "self.mesh.face_corners" if kind == "corner" else "self.mesh.vertices"
-        okc = len(crea) == 1 and isinstance(crea[0].value, ast.Call) and au.call_tail(crea[0].value) == "create_attribute" \
-            and au.src(crea[0].value.func.value) == cont and len(crea[0].value.args) >= 3 and au.const(crea[0].value.args[2]) == 2
-        ctx.check(okc, "C17-S1", ctx.site(TUT, fn, anchor), f"run, per-{kind} branch: self.uvs is not a 2-component attribute on {cont}",
-                  "", note=f"per-{kind} branch: attribute on {cont}")
-    # ---- flat_mesh
+    F = solves[0]["LI"][1]
+    sol = {}
+    for s in solves:
+        for col, k in enumerate(s["coords"]):
+            sol[k] = (s["canon"], col if len(s["coords"]) > 1 else None)
+
+    def comp_of(e):
+        """('F' | 'B', coordinate, index expr) for X[i] / X[i, col] / X[i][col] with X a solution or a boundary vector"""
+        col = None
+        if isinstance(e, ast.Subscript) and isinstance(e.value, ast.Subscript) and isinstance(au.const(e.slice), int) and not isinstance(e.slice, ast.Tuple) \
+                and _init_coord(e.value) is None:
+            col, e = au.const(e.slice), e.value
+        if not isinstance(e, ast.Subscript):
+            return None
+        idx = e.slice
+        if isinstance(idx, ast.Tuple) and len(idx.elts) == 2 and isinstance(au.const(idx.elts[1]), int):
+            col, idx = au.const(idx.elts[1]), idx.elts[0]
+        base = e.value
+        k = _init_coord(base)
+        if k is not None and col is None:
+            return "B", k, idx
+        for k, (canon, c) in sol.items():
+            if au.same(base, canon) and c == col:
+                return "F", k, idx
+        return None
+
+    def vertex_of(e):
+        """('F' | 'B', index name) when e is IDX[k] for one of the two index lists"""
+        if isinstance(e, ast.Subscript) and isinstance(e.slice, ast.Name):
+            if au.same(e.value, F):
+                return "F", e.slice.id
+            if au.same(e.value, B):
+                return "B", e.slice.id
+        return None
+
+    def index_loop_ok(k, which, st):
+        """k enumerates the whole index list: enumerate / zip index of a loop over it (by construction) or range(len(list))"""
+        if k.startswith("zip_k__"):
+            return True
+        for lp in H.for_ancestors(st, stop=fn):
+            elem, idx, seq, start = H.loop_elem(lp)
+            if idx == k:
+                return au.const(start) == 0 and au.same(S.canon(seq, lp), F if which == "F" else B)
+            if idx is None and H.is_name(elem, k):
+                sc = S.canon(seq, lp)
+                return isinstance(sc, ast.Call) and au.call_tail(sc) == "range" and len(sc.args) == 1 and isinstance(sc.args[0], ast.Call) \
+                    and au.call_tail(sc.args[0]) == "len" and len(sc.args[0].args) == 1 and au.same(sc.args[0].args[0], F if which == "F" else B)
+        return False
+    results = {}
+    unknown = []
+    bad = []
+    for st, tgt, val in stores:
+        lps = H.for_ancestors(st, stop=fn)
+        conds = H.inner_conds(S, st, fn)
+        mode = None
+        rest = []
+        for t, p in conds:
+            t2, p2 = au.strip_not(t, p)
+            if au.is_self_attr(t2, "save_on_corners"):
+                mode = "corner" if p2 else "vertex"
+            else:
+                rest.append(t)
+        if mode is None or rest or val is None or not lps:
+            unknown.append(st)
+            continue
+        sc = _scatter_store(ctx, facts, st, tgt, val, mode, lps, F, B, sol)
+        if sc is not None:
+            if sc == "ok":
+                results[(mode, "F")] = results[(mode, "B")] = True
+            elif sc == "bad":
+                bad.append(st)
+            else:
+                unknown.append(st)
+            continue
+        ssite = ctx.site(TUT, fn0, st)
+        # ---- which vertex does the key stand for
+        inner_vars = tuple(n for l in lps for n in au.assigned_names(l.target))
+        key = tgt.slice
+        kc = S.canon(key, st)
+        vert = None
+        if mode == "vertex":
+            vert = vertex_of(kc)
+            if vert is None and isinstance(kc, ast.Name):
+                # keyed by a bare loop index: the position in the list instead of the vertex
+                for lp in lps:
+                    elem, idx, seq, start = H.loop_elem(lp)
+                    if idx == kc.id and (au.same(S.canon(seq, lp), F) or au.same(S.canon(seq, lp), B)):
+                        bad.append(st)
+                        ctx.fail("C17-S1", ssite, "run, per-vertex branch: a store into self.uvs is keyed by the position in the index list instead of the vertex",
+                                 "the coordinates of vertex v must reach uvs[v]")
+                        vert = "reported"
+        else:
+            if isinstance(key, ast.Name):
+                cl = next((l for l in lps if H.is_name(l.target, key.id)), None)
+                if cl is not None:
+                    ic = S.canon(cl.iter, cl)
+                    if isinstance(ic, ast.Call) and au.call_tail(ic) == "vertex_to_corners" and len(ic.args) == 1:
+                        vert = vertex_of(ic.args[0])
+                        if vert is None and isinstance(ic.args[0], ast.Name):
+                            for lp in lps:
+                                elem, idx, seq, start = H.loop_elem(lp)
+                                if idx == ic.args[0].id and (au.same(S.canon(seq, lp), F) or au.same(S.canon(seq, lp), B)):
+                                    bad.append(st)
+                                    ctx.fail("C17-S1", ssite, "run, per-corner branch: the corners are those of the position in the index list, not of the vertex",
+                                             "vertex_to_corners is called with the loop index: the coordinates of vertex v must reach all corners vertex_to_corners(v)")
+                                    vert = "reported"
+                        if vert not in (None, "reported") and H.path_condition(st, stop=cl):
+                            vert = None
+            if vert is None and isinstance(kc, ast.Subscript) and isinstance(kc.value, ast.Call) and au.call_tail(kc.value) == "vertex_to_corners" \
+                    and isinstance(au.const(kc.slice), int):
+                bad.append(st)
+                ctx.fail("C17-S1", ssite, "run, per-corner branch: only one corner of the enumerated vertex receives its coordinates",
+                         "the coordinates of vertex v must reach all corners vertex_to_corners(v)")
+                vert = "reported"
+        if vert == "reported":
+            continue
+        if vert is None:
+            unknown.append(st)
+            continue
+        which, k = vert
+        if not index_loop_ok(k, which, st):
+            unknown.append(st)
+            continue
+        valc = S.canon(val, st)
+        comps = None
+        if isinstance(valc, ast.Call) and au.call_tail(valc) in ("Vec", "array", "tuple") and len(valc.args) == 2:
+            comps = [comp_of(a) for a in valc.args]
+        elif isinstance(valc, (ast.Tuple, ast.List)) and len(valc.elts) == 2:
+            comps = [comp_of(a) for a in valc.elts]
+        elif isinstance(valc, ast.Subscript) and H.is_name(valc.slice, k):
+            for kk, (canon, c) in sol.items():
+                if c is not None and au.same(valc.value, canon):
+                    comps = [("F", j, valc.slice) for j in sorted(sol)] if all(au.same(sol[j][0], canon) for j in sol) else None
+        if comps is None or None in comps:
+            unknown.append(st)
+            continue
+        good = [c[0] == which and c[1] == j and H.is_name(c[2], k) for j, c in enumerate(comps)]
+        if all(good):
+            results[(mode, which)] = True
+            ctx.ok("C17-S1", ssite, f"per-{mode} branch stores the {('solution' if which == 'F' else 'boundary value')} of vertex i over the {'free' if which == 'F' else 'border'} list")
+        else:
+            bad.append(st)
+            ctx.fail("C17-S1", ssite,
+                     f"run, per-{mode} branch: stored values are not (U[i], V[i]) over enumerate(free) and (Ubnd[i], Vbnd[i]) over enumerate(border)",
+                     f"the vertex is taken from the {'free' if which == 'F' else 'border'} list and receives "
+                     f"{[(('solution' if c[0] == 'F' else 'boundary') + ' of coordinate ' + str(c[1])) for c in comps]}: position i of each "
+                     "solution vector belongs to the i-th vertex of the list that indexed the matrix block; the two storage modes must agree")
+    if unknown:
+        ctx.undecided("C17-S1", ctx.site(TUT, fn0, unknown[0]), "run: a store into self.uvs is not recognised as (U[i], V[i]) / (Ubnd[i], Vbnd[i]) of an enumerated index list", "")
+    elif not bad:
+        modes = {m for m, w in results}
+        missing = [(m, w) for m in modes for w in ("F", "B") if (m, w) not in results]
+        if modes != {"corner", "vertex"}:
+            ctx.undecided("C17-S1", site, "run: the two storage modes (per corner / per vertex) are not both recognised", "")
+        else:
+            stored = {id(t.value) for st_, t, v_ in stores}
+            other_uses = [n for n in au.walk(fn) if ((au.is_self_attr(n, "uvs") and isinstance(n.ctx, ast.Load)) or (isinstance(n, ast.Name) and n.id in aliases and isinstance(n.ctx, ast.Load)))
+                          and id(n) not in stored and not (isinstance(au.parent(n), ast.Assign) and au.parent(n).value is n)]
+            if missing and not other_uses:
+                ctx.fail("C17-S1", site, "run: a storage mode does not store both the interior solution and the boundary values",
+                         f"missing: {[(m, 'interior' if w == 'F' else 'border') for m, w in missing]}: these vertices keep the default coordinates (0, 0)")
+            elif missing:
+                ctx.undecided("C17-S1", site, "run: a storage mode is not recognised to store both the interior solution and the boundary values", f"{missing}")
+            else:
+                ctx.ok("C17-S1", site, "both modes store interior and boundary coordinates")
+    # attribute containers
+    creations = [st for st in au.stmts(fn.body) if isinstance(st, ast.Assign) and any(au.is_self_attr(t, "uvs") for t in st.targets)]
+    for st in creations:
+        v = S.canon(st.value, st)
+        base_mode = None
+        for t, p in H.inner_conds(S, st, fn):
+            t2, p2 = au.strip_not(t, p)
+            if au.is_self_attr(t2, "save_on_corners"):
+                base_mode = "corner" if p2 else "vertex"
+        alts = []
+        if isinstance(v, ast.Call) and au.call_tail(v) == "create_attribute" and isinstance(v.func, ast.Attribute):
+            for conds, leaf in hj_scope.ifexp_leaves(v.func.value):
+                mode = base_mode
+                for t, p in conds:
+                    t2, p2 = au.strip_not(t, p)
+                    if au.is_self_attr(t2, "save_on_corners"):
+                        mode = "corner" if p2 else "vertex"
+                alts.append((mode, leaf, v))
+        else:
+            for conds, leaf in hj_scope.ifexp_leaves(v):
+                mode = base_mode
+                for t, p in conds:
+                    t2, p2 = au.strip_not(t, p)
+                    if au.is_self_attr(t2, "save_on_corners"):
+                        mode = "corner" if p2 else "vertex"
+                if isinstance(leaf, ast.Call) and au.call_tail(leaf) == "create_attribute" and isinstance(leaf.func, ast.Attribute):
+                    alts.append((mode, leaf.func.value, leaf))
+                else:
+                    alts.append((None, None, None))
+        if not alts or any(m is None for m, _, _ in alts):
+            ctx.undecided("C17-S1", ctx.site(TUT, fn0, st), "run: the creation of the attribute self.uvs is not recognised", "")
+            continue
+        for mode, cont_e, call in alts:
+            cont = au.src(cont_e)
+            want = "self.mesh.face_corners" if mode == "corner" else "self.mesh.vertices"
+            size = call.args[2] if len(call.args) > 2 else next((k.value for k in call.keywords if k.arg in ("elem_size", "size")), None)
+            sz = hj_scope.fold(S.canon(size, st)) if size is not None else 1
+            other = "self.mesh.vertices" if mode == "corner" else "self.mesh.face_corners"
+            if cont == want and sz == 2:
+                ctx.ok("C17-S1", ctx.site(TUT, fn0, st), f"per-{mode} branch: attribute on {want}")
+            elif cont == other or (cont == want and sz is not None and sz != 2):
+                ctx.fail("C17-S1", ctx.site(TUT, fn0, st), f"run, per-{mode} branch: self.uvs is not a 2-component attribute on {want}", f"found `{au.src(call)[:90]}`")
+            else:
+                ctx.undecided("C17-S1", ctx.site(TUT, fn0, st), f"run, per-{mode} branch: the container / size of the attribute self.uvs is not recognised", "")
+
+
+# ------------------------------------------------------------------ C17-S1 (flat_mesh): evaluated on a two-triangle mesh
+def _flat_mesh_eval(ctx, on_corners):
+    faces = [(0, 1, 2), (2, 1, 3)]
+    corners = [v for f in faces for v in f]
+    f_uv = lambda v: (v + 0.25, -2.0 * v - 1)
+    uvs = [f_uv(v) for v in corners] if on_corners else [f_uv(v) for v in range(4)]
+    flat = {}
+
+    def hook(path):
+        table = {"self.mesh": lambda: E.Obj("self.mesh", hook), "self.mesh.faces": lambda: [tuple(f) for f in faces], "self.mesh.id_faces": lambda: range(2),
+                 "self.mesh.id_vertices": lambda: range(4), "self.mesh.vertices": lambda: [(9.0, 9.0, 9.0)] * 4, "self.mesh.face_corners": lambda: list(corners),
+                 "self.mesh.id_corners": lambda: range(6), "self.mesh.connectivity": lambda: E.Obj("self.mesh.connectivity", hook),
+                 "self.uvs": lambda: [tuple(x) for x in uvs], "self.save_on_corners": lambda: on_corners, "self._flat_mesh": lambda: None}
+        return table[path]() if path in table else E.MISSING
+
+    def call_hook(path, args, kwargs):
+        if path == "self.mesh.connectivity.face_to_corners" and len(args) == 1:
+            return [3 * args[0] + i for i in range(3)]
+        if path == "self.mesh.connectivity.corner_to_face" and len(args) == 1:
+            return args[0] // 3
+        if path == "self.mesh.connectivity.vertex_to_corners" and len(args) == 1:
+            return [c for c, v in enumerate(corners) if v == args[0]]
+        if path == "self.mesh.connectivity.face_to_vertices" and len(args) == 1:
+            return list(faces[args[0]])
+        return E.MISSING
+
+    def mk_copy(m):
+        o = E.Obj("flat", lambda p: E.MISSING)
+        o.attrs["vertices"] = [(9.0, 9.0, 9.0)] * 4
+        o.attrs["faces"] = [tuple(f) for f in faces]
+        flat["obj"] = o
+        return o
+    it = E.Interp(ctx.repo, BASE, obj_hook=hook, obj_class={"self": (TUT, CLS)}, call_hook=call_hook,
+                  name_hook={"copy": mk_copy, "Vec": lambda *a: tuple(float(x) for x in a), "deepcopy": mk_copy})
+    fn = ctx.repo.func(BASE, "BaseParametrization.flat_mesh")
+    r = it.call_function(fn, [E.Obj("self", hook)])
+    if not isinstance(r, E.Obj) or "vertices" not in r.attrs:
+        raise E.Unsupported("flat_mesh does not return the copied mesh")
+    out = r.attrs["vertices"]
+    bad = []
+    for v in range(4):
+        want = (f_uv(v)[0], f_uv(v)[1], 0.0)
+        got = out[v]
+        if not (isinstance(got, tuple) and len(got) == 3 and all(isinstance(x, (int, float)) for x in got) and all(abs(a - b) < 1e-12 for a, b in zip(got, want))):
+            bad.append((v, got, want))
+    return bad
+
+
+def s1_flat_mesh(ctx):
     fm = ctx.repo.func(BASE, "BaseParametrization.flat_mesh")
     fsite = ctx.site(BASE, fm)
-    ifs = [s for s in au.stmts(fm.body) if isinstance(s, ast.If) and s.orelse and
-           (au.is_self_attr(s.test, "save_on_corners") or (isinstance(s.test, ast.UnaryOp) and au.is_self_attr(s.test.operand, "save_on_corners")))]
-    if len(ifs) != 1:
-        ctx.fail("C17-S1", fsite, "flat_mesh: if/else on self.save_on_corners not found", "")
-        return
-    s0 = ifs[0]
-    neg = isinstance(s0.test, ast.UnaryOp)
-    cor, ver = (s0.orelse, s0.body) if neg else (s0.body, s0.orelse)
-    loops = [l for l in H.loop_ancestors(s0, stop=fm) if isinstance(l, ast.For)]
-    ok_loops = len(loops) == 2 and isinstance(loops[1].target, ast.Name) and au.src(loops[1].iter) in ("self.mesh.id_faces", "range(len(self.mesh.faces))") \
-        and isinstance(loops[0].target, ast.Tuple) and isinstance(loops[0].iter, ast.Call) and au.call_tail(loops[0].iter) == "enumerate" \
-        and len(loops[0].iter.args) == 1 and not loops[0].iter.keywords \
-        and au.src(loops[0].iter.args[0]) == f"self.mesh.faces[{au.src(loops[1].target)}]"
-    if not ok_loops:
-        ctx.fail("C17-S1", fsite, "flat_mesh: loop nest `for T in id_faces: for i, v in enumerate(faces[T])` not found", "")
-        return
-    T = loops[1].target.id
-    i, v = (x.id for x in loops[0].target.elts)
-
-    def key_of(body):
-        for s in body:
-            if isinstance(s, ast.Assign) and len(s.targets) == 1 and isinstance(s.targets[0], ast.Subscript) \
-                    and au.src(s.targets[0].value) == "self._flat_mesh.vertices" and H.is_name(s.targets[0].slice, v) \
-                    and isinstance(s.value, ast.Call) and au.call_tail(s.value) == "Vec" and len(s.value.args) >= 2:
-                ks = []
-                for comp, a in enumerate(s.value.args[:2]):
-                    if isinstance(a, ast.Subscript) and au.const(a.slice) == comp and isinstance(a.value, ast.Subscript) \
-                            and au.is_self_attr(a.value.value, "uvs"):
-                        ks.append(a.value.slice)
-                if len(ks) == 2 and au.same(ks[0], ks[1]):
-                    return ks[0]
-        return None
-    kc, kv = key_of(cor), key_of(ver)
-    okc = kc is not None and H.poly(kc) == sym.Poly.atom(T).scale(3) + sym.Poly.atom(i)
-    ctx.check(okc, "C17-S1", ctx.site(BASE, fm, s0), "flat_mesh: per-corner coordinates of vertex i of triangle T are not read at corner 3*T+i, components 0 and 1",
-              f"found key `{au.src(kc) if kc is not None else None}`", note="flat_mesh: corner key 3*T+i")
-    ctx.check(kv is not None and H.is_name(kv, v), "C17-S1", ctx.site(BASE, fm, s0),
-              "flat_mesh: per-vertex coordinates are not read at uvs[v], components 0 and 1",
-              f"found key `{au.src(kv) if kv is not None else None}`", note="flat_mesh: vertex key v")
-    fl.require(8)
-
-
+    for on_corners, label in ((True, "per-corner"), (False, "per-vertex")):
+        try:
+            bad = _flat_mesh_eval(ctx, on_corners)
+        except (E.Unsupported, RecursionError) as ex:
+            ctx.undecided("C17-S1", fsite, f"flat_mesh: the copy of the {label} coordinates into the flat mesh cannot be evaluated", f"abstract evaluation stops at: {ex}")
+            continue
+        except E.Raised as ex:
+            ctx.fail("C17-S1", fsite, f"flat_mesh: reading the {label} coordinates raises on a two-triangle mesh", str(ex))
+            continue
+        if on_corners:
+            ctx.check(not bad, "C17-S1", fsite, "flat_mesh: per-corner coordinates of vertex i of triangle T are not read at corner 3*T+i, components 0 and 1",
+                      f"on the mesh [(0,1,2),(2,1,3)] vertex {bad[0][0]} receives {bad[0][1]} instead of {bad[0][2]}" if bad else "", note="flat_mesh: corner key 3*T+i")
+        else:
+            ctx.check(not bad, "C17-S1", fsite, "flat_mesh: per-vertex coordinates are not read at uvs[v], components 0 and 1",
+                      f"on the mesh [(0,1,2),(2,1,3)] vertex {bad[0][0]} receives {bad[0][1]} instead of {bad[0][2]}" if bad else "", note="flat_mesh: vertex key v")
 # ------------------------------------------------------------------ C17-W1
-BORD = "processing.border"
-
-
 def w1_border_walk(ctx):
-    fn = ctx.repo.func(BORD, "extract_border_cycle")
-    H.check_walk_orientation(ctx, "C17-W1", BORD, fn)
+    H.check_walk_orientation(ctx, "C17-W1")
     H.check_sort_contract(ctx, "C17-W1")
 
 
 # ------------------------------------------------------------------ C17-L1
-LAPM = "operators.laplacian_op"
+def _is_cot_source(e):
+    return isinstance(e, ast.Call) and (au.call_tail(e) == "cotangent" or (au.call_tail(e) == "get_attribute" and e.args and au.const(e.args[0]) == "cotan"))
+
+
+_COT_NAMES = set()      # names of the local(s) holding the cotangent container in the function under analysis
+
+
+def _is_unset(l):
+    """None, or the bare name of the container itself left over where no definition reaches (unbound on that path)"""
+    return (isinstance(l, ast.Constant) and l.value is None) or (isinstance(l, ast.Name) and l.id in _COT_NAMES)
+
+
+def _is_cot_expr(e):
+    leaves = [l for _, l in hj_scope.ifexp_leaves(e)]
+    return any(_is_cot_source(l) for l in leaves) and all(_is_cot_source(l) or _is_unset(l) for l in leaves)
+
+
+def _nonnull(e):
+    if isinstance(e, ast.IfExp):
+        return ast.BoolOp(op=ast.Or(), values=[ast.BoolOp(op=ast.And(), values=[e.test, _nonnull(e.body)]),
+                                               ast.BoolOp(op=ast.And(), values=[ast.UnaryOp(op=ast.Not(), operand=e.test), _nonnull(e.orelse)])])
+    return ast.Constant(value=not _is_unset(e))
 
 
 def l1_weights(ctx):
-    fn = ctx.repo.func(LAPM, "laplacian")
-    site = ctx.site(LAPM, fn)
-    ps = au.params(fn)
-    if "cotan" not in ps:
-        ctx.fail("C17-L1", site, "laplacian: parameter `cotan` not found", "uniform weights must remain selectable")
+    fn0 = ctx.repo.func(LAPM, "laplacian")
+    site = ctx.site(LAPM, fn0)
+    fn, S, nz = H.norm_fn(ctx, LAPM, "laplacian")
+    if "cotan" not in au.params(fn):
+        ctx.undecided("C17-L1", site, "laplacian: parameter `cotan` not recognised", "uniform weights must remain selectable")
         return
-    # the cotangent container: names assigned from cotangent(...) / get_attribute("cotan")
-    def is_cot_source(v):
-        return isinstance(v, ast.Call) and (au.call_tail(v) == "cotangent" or
-                                            (au.call_tail(v) == "get_attribute" and v.args and au.const(v.args[0]) == "cotan"))
-    cot_names = {n for st in au.stmts(fn.body) if isinstance(st, ast.Assign) and is_cot_source(st.value)
-                 for t in st.targets for n in au.assigned_names(t)}
-    if len(cot_names) != 1:
-        ctx.fail("C17-L1", site, "laplacian: container of the cotangent weights not found", f"candidates {sorted(cot_names)}")
+    reads = []
+    _COT_NAMES.clear()
+    for n in au.walk(fn):
+        if isinstance(n, ast.Subscript) and isinstance(n.ctx, ast.Load) and isinstance(n.value, ast.Name):
+            c = S.canon(n.value, n)
+            _COT_NAMES.add(n.value.id)
+            ok = _is_cot_expr(c)
+            _COT_NAMES.discard(n.value.id)
+            if ok:
+                reads.append((n, c))
+    _COT_NAMES.update(n.value.id for n, c in reads)
+    if not reads:
+        ctx.undecided("C17-L1", site, "laplacian: the reads of the cotangent weights in the assembly are not recognised", "")
         return
-    cot = cot_names.pop()
-    assigns = [st for st in au.stmts(fn.body) if isinstance(st, ast.Assign) and any(H.is_name(t, cot) for t in st.targets)]
 
     def atom(x, boolean):
         if H.is_name(x, "cotan") and boolean:
             return H.name("cotan")
         if isinstance(x, ast.Call) and au.call_tail(x) == "has_attribute" and x.args and au.const(x.args[0]) == "cotan":
             return H.name("cached")
-        if isinstance(x, ast.Compare) and len(x.ops) == 1 and H.is_name(x.left, cot) and isinstance(x.comparators[0], ast.Constant) \
-                and x.comparators[0].value is None and isinstance(x.ops[0], (ast.Is, ast.IsNot)):
-            nn = nonnull_formula()
+        if isinstance(x, ast.Compare) and len(x.ops) == 1 and isinstance(x.ops[0], (ast.Is, ast.IsNot)) and isinstance(x.comparators[0], ast.Constant) \
+                and x.comparators[0].value is None and _is_cot_expr(x.left):
+            nn = H.Abs(atom).boolean(_nonnull(x.left))
             return nn if isinstance(x.ops[0], ast.IsNot) else ast.UnaryOp(op=ast.Not(), operand=nn)
+        if boolean and isinstance(x, ast.IfExp) and _is_cot_expr(x):
+            return H.Abs(atom).boolean(_nonnull(x))
         return None
-
-    def pc(node):
-        ab = H.Abstractor(atom)
-        code = ab.boolean(H.conj([(t, p) for t, p, _ in H.path_condition(node, stop=fn)]))
-        return code, ab.unknown
-
-    _nn = []
-
-    def nonnull_formula():
-        """`cot is not None` after the (loop-free) prefix: fold of the assignments in source order"""
-        if _nn:
-            return _nn[0]
-        state = ast.Constant(value=False)
-        for st in assigns:
-            if H.loop_ancestors(st, stop=fn):
-                continue
-            code, unk = pc(st)
-            nonnull = not (isinstance(st.value, ast.Constant) and st.value.value is None)
-            a = ast.BoolOp(op=ast.And(), values=[code, ast.Constant(value=nonnull)])
-            bb = ast.BoolOp(op=ast.And(), values=[ast.UnaryOp(op=ast.Not(), operand=code), state])
-            state = ast.BoolOp(op=ast.Or(), values=[a, bb])
-        _nn.append(state)
-        return state
-
-    # uses of the cotangent values in the assembly: cot[...] reads inside loops
-    uses = [n for n in au.walk(fn) if isinstance(n, ast.Subscript) and H.is_name(n.value, cot) and isinstance(n.ctx, ast.Load)]
-    stmts = []
-    for u in uses:
-        st = au.enclosing_stmt(u)
-        if all(st is not x for x in stmts):
-            stmts.append(st)
-    if not stmts:
-        ctx.fail("C17-L1", site, "laplacian: no read of the cotangent weights in the assembly", "cotangent weights must be used when requested")
-        return
-    for st in stmts:
-        code, unk = pc(st)
-        # expression-level guards (cot[...] if cotan else 0.5)
+    seen = []
+    for n, c in reads:
+        st = au.enclosing_stmt(n)
+        if any(st is z for z in seen):
+            continue
+        seen.append(st)
+        ssite = ctx.site(LAPM, fn0, st)
+        ab = H.Abs(atom)
+        parts = H.inner_conds(S, st, fn) + [(t, p) for t, p in S.conds(n, stop=st)]
+        code = ab.boolean(H.conj(parts))
+        if ab.unknown:
+            ctx.undecided("C17-L1", ssite, "laplacian: a condition under which the cotangent weights are read is not recognised", f"{ab.unknown}")
+            continue
         try:
-            wit, n = (H.compare(code, "cotan") if not unk else ({"unrecognised": unk}, 0))
+            wit, k = H.compare(code, "cotan")
         except order.Unsupported as ex:
-            wit, n = {"unsupported": str(ex)}, 0
-        ctx.check(wit is None, "C17-L1", ctx.site(LAPM, fn, st),
-                  "laplacian: the cotangent weights are not used exactly when `cotan` is true",
-                  f"condition of `{au.src(st)[:80]}` is `{au.src(code)}`; differs from `cotan` for {H.fmt_env(wit) if isinstance(wit, dict) else wit} "
+            ctx.undecided("C17-L1", ssite, "laplacian: the condition of a read of the cotangent weights is not a boolean combination of tests", str(ex))
+            continue
+        ctx.check(wit is None, "C17-L1", ssite, "laplacian: the cotangent weights are not used exactly when `cotan` is true",
+                  f"the read is executed under `{au.src(code)[:120]}`; differs from `cotan` for {H.fmt_env(wit) if wit else ''} "
                   "(cached = the mesh already carries a 'cotan' attribute): TutteEmbedding(use_cotan=False) must use uniform weights, "
                   "which are the ones for which the embedding is always fold-free",
-                  note=f"cot[...] read iff cotan ({n} assignments)")
-    # the cotangent container is built whenever cotan is requested
-    code_nn = nonnull_formula()
-    try:
-        wit, n = H.compare(ast.BoolOp(op=ast.Or(), values=[ast.UnaryOp(op=ast.Not(), operand=H.name("cotan")), code_nn]), "True")
-    except order.Unsupported as ex:
-        wit, n = {"unsupported": str(ex)}, 0
-    ctx.check(wit is None, "C17-L1", site, "laplacian: the cotangent container may be unset although `cotan` is true",
-              f"for {H.fmt_env(wit) if isinstance(wit, dict) else wit}", note="cot built whenever cotan is requested")
+                  note=f"cot[...] read iff cotan ({k} assignments)")
+        # the container is set whenever it is read
+        nn = H.Abs(atom)
+        nn_code = nn.boolean(_nonnull(c))
+        if nn.unknown:
+            ctx.undecided("C17-L1", ssite, "laplacian: the conditions under which the cotangent container is built are not recognised", f"{nn.unknown}")
+        else:
+            w2, k2 = H.compare(ast.BoolOp(op=ast.Or(), values=[ast.UnaryOp(op=ast.Not(), operand=code), nn_code]), "True")
+            ctx.check(w2 is None, "C17-L1", ssite, "laplacian: the cotangent container may be unset where it is read",
+                      f"for {H.fmt_env(w2) if w2 else ''}", note="cot built whenever it is read")
+        # the weight of a corner is its cotangent halved, unmodified
+        val = getattr(st, "value", None)
+        if val is None:
+            continue
+        marker = "COTREAD"
+
+        # work on the statement itself (reads are nodes of this tree): rebuild a copy with markers
+        idmap = {id(r): True for r, _ in reads}
+
+        def mark(e):
+            if isinstance(e, ast.Subscript) and id(e) in idmap:
+                return ast.Name(id=marker, ctx=ast.Load())
+            if isinstance(e, ast.AST):
+                new = type(e)()
+                for f in e._fields:
+                    if hasattr(e, f):
+                        v = getattr(e, f)
+                        setattr(new, f, [mark(x) for x in v] if isinstance(v, list) else mark(v))
+                return new
+            return e
+        mv = mark(val)
+        if isinstance(mv, (ast.Tuple, ast.List, ast.GeneratorExp, ast.ListComp)):
+            continue
+        pl = H.poly(mv)
+        wrapped = [a for a in pl.atoms() if marker in a and a != marker]
+        if wrapped:
+            calls = [c2 for c2 in ast.walk(mv) if isinstance(c2, ast.Call) and any(isinstance(z, ast.Name) and z.id == marker for z in ast.walk(c2))]
+            names = {au.call_tail(c2) for c2 in calls}
+            if names & {"max", "min", "abs", "clip", "maximum", "minimum", "fabs", "fmax", "fmin"}:
+                ctx.fail("C17-L1", ssite, "laplacian: the cotangent of a corner is clamped / rectified before it enters the weights",
+                         f"`{au.src(val)[:100]}`: the weight of an edge is (cot a + cot b)/2; clamping each cotangent changes the weight of every edge opposite to an "
+                         "obtuse angle even when the sum is non-negative: interior vertices are no longer the cotangent-weighted average of their neighbours")
+            else:
+                ctx.undecided("C17-L1", ssite, "laplacian: the expression that turns a cotangent into a weight is not recognised", "")
+        elif marker in pl.atoms():
+            if pl == sym.Poly({(marker,): Fraction(1, 2)}):
+                ctx.ok("C17-L1", ssite, "corner weight = cot / 2")
+            else:
+                ctx.undecided("C17-L1", ssite, "laplacian: the scaling of the cotangent weights is not the recognised cot / 2", f"found {pl!r}")
